@@ -172,6 +172,15 @@ pub fn run(cfg: &Cfg) -> (&'static str, Report, String, String) {
             r.sample(|| format!("s={:?}: all {} front/back masks of {} steps, chars/char_indices/rev/rev.rev, as_str after every step", s, masks.len(), steps));
         }
     }));
+    let mut la: Vec<&str> = LEADS.to_vec();
+    la.extend(LEADS_HI3);
+    let lstrings = strings_upto(&la, cfg.by(1, 2, 3));
+    rep.merge(par_for(cfg, lstrings.len(), |i, r| {
+        let s = &lstrings[i];
+        let steps = s.chars().count() + 2;
+        let masks: Vec<u64> = (0..(1u64 << steps)).collect();
+        check_masks(r, s, &masks, steps);
+    }));
     let nrand = cfg.by(2, 300, 2000);
     rep.merge(par_for(cfg, nrand, |i, r| {
         let mut rng = Rng::new(cfg.seed.wrapping_mul(31_337).wrapping_add(i as u64));
